@@ -1221,6 +1221,14 @@ class Interp:
         st.set_arr('D_val', z3.Store(st.D_val, r, z3.Store(st.D_val[r], key, b)), r)
 
     def dict_get(self, r, key, T) -> SV:
+        log = getattr(self, 'dict_log', None)
+        if log is not None:
+            for (racc, entries) in log:
+                if racc.eq(r):
+                    # the loop body reads the dict it is building: the value it sees is not the
+                    # pre-loop one, so nothing is claimed about stored values
+                    self.shared.setdefault('dict_acc_read', set()).add(r.get_id())
+                    return self.unbox(self.st.fresh('accval', Val), vT_of(T))
         vT = T[1] if T and T[0] == 'dict' else None
         return self.unbox(self.st.D_val[r][key], vT)
 
@@ -3243,9 +3251,13 @@ class Interp:
         st.fresh_n += 1
         wk = w(kq)
         alts = []
+        values_known = r.get_id() not in self.shared.get('dict_acc_read', set())
         for (c, key, val) in stores:
-            alts.append(z3.And(z3.substitute(c, (K, wk)), z3.substitute(key, (K, wk)) == kq,
-                               val1[kq] == z3.substitute(val, (K, wk))))
+            if values_known:
+                alts.append(z3.And(z3.substitute(c, (K, wk)), z3.substitute(key, (K, wk)) == kq,
+                                   val1[kq] == z3.substitute(val, (K, wk))))
+            else:
+                alts.append(z3.And(z3.substitute(c, (K, wk)), z3.substitute(key, (K, wk)) == kq))
         st.fact(z3.ForAll([kq], z3.Implies(has1[kq], z3.Or(
             z3.And(has0[kq], val1[kq] == val0[kq]),
             z3.And(0 <= wk, wk < length, z3.Or(*alts)))), patterns=[has1[kq]]))
@@ -3519,6 +3531,10 @@ def annotation_type(node):
         if inner.isidentifier():
             return ('list', parse_type(inner))
     return None
+
+
+def vT_of(T):
+    return T[1] if T and T[0] == 'dict' else None
 
 
 def subscript_store_names(body):
